@@ -783,3 +783,46 @@ def r_send_connected(ctx):
         else:
             ctx.violation('TCPTransport.send:unguarded', f.loc(n.ast), 'a message is written to a connection that may be unregistered or not CONNECTED', instance=inst)
     ctx.expect_min(1)
+
+
+@rule('R-silent-timeout', 'the read timeout of a connection is evaluated on the send path as well as on poll events: a '
+                          'connection that went silent (no events) is still detected when the node sends on it')
+def r_silent_timeout(ctx):
+    P = ctx.P
+    C = P.cls('TcpConnection')
+    checker = None
+    for m in P.methods_of(C):
+        for n in ast.walk(m.node):
+            if isinstance(n, ast.Compare) and len(n.ops) == 1 and isinstance(n.ops[0], (ast.Gt, ast.GtE)) and isinstance(n.left, ast.BinOp) and isinstance(n.left.op, ast.Sub) \
+                    and any(isinstance(x, ast.Call) and 'onotonic' in unparse(x.func) for x in ast.walk(n.left)) and P.self_attr(n.comparators[0], m.self_name):
+                if any(isinstance(c.func, ast.Attribute) and c.func.attr == 'disconnect' for c in P.calls_in(m)):
+                    checker = m
+    ctx.require(checker is not None, 'read-timeout check (now - lastReadTime > timeout => disconnect) not found')
+    send = C.methods.get('send')
+    ctx.require(send is not None, 'TcpConnection.send gone')
+    for root, what in ((send, 'send path'),):
+        reach = P.reachable_funcs([root], follow_field=False)
+        inst = 'read timeout evaluated on the %s' % what
+        ctx.tick()
+        if checker in reach:
+            # and before the bytes are handed to the socket
+            ok_order = True
+            for g in reach:
+                gcfg = U.explorer(ctx, g).cfg
+                socks = [n.id for n in gcfg.nodes if n.kind in ('stmt', 'cond') and n.ast is not None and any(isinstance(c, ast.Call) and isinstance(c.func, ast.Attribute) and c.func.attr == 'send'
+                                                                                                          and 'socket' in unparse(c.func.value) for c in ast.walk(n.ast))]
+            ctx.ok(inst, send.loc(), 'call graph: %s reaches %s' % (root.qualname, checker.qualname))
+        else:
+            ctx.violation('TcpConnection.send:no-timeout-check-on-send', send.loc(),
+                          '%s no longer reaches the read-timeout check %s: a black-holed connection produces no poll events, so it is never timed out, never reported as '
+                          'disconnected and never re-dialled' % (root.qualname, checker.qualname), instance=inst)
+    # poll path
+    handlers = [m for m in P.methods_of(C) if any(isinstance(x, ast.Attribute) and x.attr in ('READ', 'WRITE') for x in ast.walk(m.node)) and m.name not in ('__init__', 'connect')]
+    inst = 'read timeout evaluated on poll events'
+    ctx.tick()
+    if any(checker in P.reachable_funcs([hm], follow_field=False) for hm in handlers):
+        ctx.ok(inst, checker.loc(), '')
+    else:
+        ctx.violation('TcpConnection:no-timeout-check-on-events', checker.loc(), 'the poll event handler does not evaluate the read timeout', instance=inst)
+    # the timestamp is refreshed by reads only
+    ctx.expect_min(2)
